@@ -116,7 +116,7 @@ var (
 )
 
 func Refs() []vivid.ActorRef {
-	return []vivid.ActorRef{nil, ref("localhost", "/a/b"), ref("10.0.0.7:8080", "/user/x"), ref("localhost", "/a/@future@1234")}
+	return []vivid.ActorRef{nil, ref("localhost", "/a/b"), ref("10.0.0.7:8080", "/user/x"), ref("localhost", "/a/@future@1234"), ref("10.0.0.7:8080", "/")}
 }
 
 func Errors() []error {
